@@ -39,7 +39,25 @@ PROPS = {
         "note": "partial: that the Go runtime really permutes map iteration and that the nested call receives the flag is runtime behaviour, reached by repetition in the correspondence run",
         "design": "DESIGN.md §3 C05",
     },
-    "C06": {"engines": [DECODE], "claimed": False},
+    "C06": {
+        "engines": [DECODE],
+        "text": "Lean 4 theorems on the model of the generated unmarshal closure and of proto.Unmarshal's wrapper, for every schema and every byte string: C06_closure_no_panic, C06_no_panic (every slice expression is guarded), termination by construction plus C06_fuel_irrelevant (the record loop always progresses), C06_depth_bounded / C06_too_deep_rejected (recursion budget honoured: nesting beyond the protobuf-go limit is rejected), C06_post_usable (an accepted message can be sized and marshalled). Tied on every run by decoding well-typed and malformed streams (truncations, bit flips, adversarial lengths, deep nests) with the real code and the model.",
+        "note": "partial: the bound on allocated memory is measured on the real code (heap growth per input byte on adversarial inputs), not proved; Go stack growth is runtime behaviour; for malformed inputs only the outcome class panic / not-panic is an obligation (which malformed inputs are rejected is not part of the property)",
+        "design": "DESIGN.md §3 C06",
+    },
+    "C07": {
+        "engines": [DECODE, dict(CODEC, args=SMALL)],
+        "text": "Partial. Proved (Lean 4, on the reflection + codec model): C07_reads_frame / C07_read_history_frame — read-only calls leave every field of the Go struct representation unchanged, nil-versus-empty included. Memory aliasing is not expressible in a value-semantic model: it is decided on the real code on every run — after every Unmarshal the input buffer is overwritten and the message re-read through the struct view; after every Marshal all byte slices of the message are overwritten in place and the returned bytes re-compared; the struct is deep-compared around the read-only call set.",
+        "note": "partial: aliasing is Go memory behaviour, covered by the scribble oracles only (generator: bytes/string fields in singular, repeated, oneof and map positions, unknown fields at depth); the theorem covers the frame condition",
+        "design": "DESIGN.md §3 C07",
+    },
+    "C11": {
+        "engines": [RACE],
+        "race": True,
+        "text": "Partial. Proved (Lean 4): C11_reads_write_nothing, C11_read_history, C11_interleaving — in the model of the generated code read-only operations write nothing, so in every interleaving of any number of readers each reader observes exactly what it observes alone. The Go memory model is outside the model: the real code is run on every check under the race detector with N goroutines performing the read-only operation set in different orders on shared messages of every generated type (incl. embedded Any/Timestamp/Duration/FieldMask), observations compared with the sequential ones.",
+        "note": "partial: freedom from data races is a property of the compiled Go code and the runtime; the race detector only sees the schedules that occur (several repetitions x goroutines per value); protobuf-go's own atomics in well-known types are trusted",
+        "design": "DESIGN.md §3 C11",
+    },
     "C08": {
         "engines": [REFLECT],
         "text": "Lean 4 refinement theorems C08_step_refines / C08_history_refines: for every schema, every well-typed state and every finite history of protoreflect operations (all message, list and map operations, at any nesting path), the model of the generated fast reflection and the abstract reference machine give equal outputs and related states; corollaries: oneof holds at most one member, Set of a member replaces, Clear of an inactive member is a no-op, Range visits exactly the populated fields once, Mutable views write through. Both machines are tied on every run: Impl machine vs real fast reflection (+ struct view, getters), Spec machine vs real dynamicpb, and fast vs dynamicpb vs struct-based slow reflection directly.",
@@ -59,7 +77,12 @@ PROPS = {
         "note": "partial: the library algorithms are not modelled; that they use only the reflection interface on pulsar types (ProtoMethods Merge/CheckInitialized are nil) is read off proto_message.go and exercised by the differential run",
         "design": "DESIGN.md §3 C10",
     },
-    "C14": {"engines": [DECODE], "claimed": False},
+    "C14": {
+        "engines": [DECODE],
+        "text": "Lean 4 theorems C14_unknown_step (a record with an undeclared number is appended byte for byte, in arrival order, to that level's unknown set and nothing else changes), C14_known_never_unknown, C14_reencode_unknown_last, C14_discard (decoding with DiscardUnknown = decoding without, then erasing every unknown set at every depth), together with C03 (unknown sets equal the reference's). Tied on every run by streams with unknown records of every wire type incl. nested groups injected at every level, both flags, compared through the struct view with the model and with real dynamicpb.",
+        "note": "trusted: Lean kernel; correspondence sampling; GetUnknown/SetUnknown are covered by the reflection model (C08)",
+        "design": "DESIGN.md §3 C14",
+    },
     "C15": {
         "engines": [{"name": "runtime"}],
         "text": "Lean 4 theorems over all naturals / all byte strings for Sov, Soz, EncodeVarint and Skip (C15_*), on a hand-written model of runtime.go tied to the code by a differential run of the compiled model against runtime.* and protowire on every check.",
@@ -88,6 +111,10 @@ PROPS = {
 }
 
 REQUIRED = {
+    "C06": ["C06_closure_no_panic", "C06_no_panic", "C06_fuel_irrelevant", "C06_depth_bounded", "C06_too_deep_rejected", "C06_post_usable"],
+    "C07": ["C07_reads_frame", "C07_read_history_frame"],
+    "C11": ["C11_reads_write_nothing", "C11_read_history", "C11_interleaving"],
+    "C14": ["C14_unknown_step", "C14_known_never_unknown", "C14_reencode_unknown_last", "C14_discard"],
     "C08": ["C08_step_refines", "C08_step_state", "C08_step_preserves_wf", "C08_history_refines", "C08_oneof_at_most_one",
             "C08_set_member_replaces", "C08_clear_inactive_member_noop", "C08_range_exactly_populated_once",
             "C08_mutable_view_writes_through"],
@@ -110,12 +137,8 @@ REQUIRED = {
 
 NOT_YET = {
     "C01": "check under construction (codec engine runs; round-trip theorem not yet proved)",
-    "C06": "check under construction (decode engine runs; theorems being proved)",
-    "C07": "check under construction",
-    "C11": "check under construction",
     "C12": "check under construction",
     "C13": "check under construction",
-    "C14": "check under construction (decode engine runs; theorems being proved)",
     "C19": "check under construction",
 }
 
